@@ -38,6 +38,8 @@ class Contract:
         self.compare_state = kw.pop("compare_state", True)
         self.skip_config = kw.pop("skip_config", None)
         self.spec_first = kw.pop("spec_first", False)
+        # heavier instantiation strategies, switched on per contract (they multiply the ground facts)
+        self.engine_opts = kw.pop("engine_opts", {})
         self.raises = kw.pop("raises", None)  # {exception class name: condition text}: raised iff condition
         self.opts = kw
         if kw.keys() - {"note", "canaries", "max_paths", "replay_candidates"}:
@@ -400,6 +402,7 @@ def verify_config(I, c, fn, specf, cfg):
     pathno = [0]
     I.verifying = c.target
     I.float_mode = c.float_mode
+    I.engine_opts = dict(c.engine_opts)
     I.registry_model = lambda goal: model_to_inputs(I, I.ctx, goal)
 
     def one(ctx):
